@@ -13,11 +13,15 @@ namespace FuModel.Find.Run
 open FuModel.Find.Walk
 
 /-- `-print0` (resp. `-print`) appends exactly the path followed by one NUL (resp. newline) to
-    the output; nothing is escaped or added. -/
-theorem C07_print_exact (start : Bytes) (v : Visit Attr) (s : ES) (term : UInt8) :
+    the output; nothing is escaped or added — for paths that are valid UTF-8 (the property's scope;
+    the code writes paths through `to_string_lossy`, `Base/Utf8.lean`). -/
+theorem C07_print_exact (start : Bytes) (v : Visit Attr) (s : ES) (term : UInt8)
+    (hv : FuModel.Utf8.validUtf8 (pathOf start v.ent.rpath) = true) :
     sem start v (.pathOut [] [term]) s =
       (true, { s with gs := { s.gs with out := s.gs.out ++ pathOf start v.ent.rpath ++ [term] } }) := by
-  simp [sem]
+  have : FuModel.Utf8.lossy (pathOf start v.ent.rpath) = pathOf start v.ent.rpath := by
+    simpa [FuModel.Utf8.validUtf8] using hv
+  simp [sem, this]
 
 def endsSlash (p : Bytes) : Bool := p.getLast? == some 47
 
